@@ -135,6 +135,19 @@ func verifObsReference(obs *Bytecode, x Object) (v Object, err error) {
 	return
 }
 
+// verifC06FollowUp runs the observation script on the VM that ran the script
+// under test, under a step budget: a VM left in a state in which the next
+// script never ends is the failure "follow-up-terminates".
+func verifC06FollowUp(vm *VM, clear bool, obs *Bytecode, x Object, v *Object, e *error) {
+	done := verifrt.Bounded(5_000_000, func() {
+		if clear {
+			vm.Clear()
+		}
+		*v, *e = vm.SetBytecode(obs).Run(verifObsGlobals(), x)
+	}, vm.Abort)
+	verifrt.Assert(done, "follow-up-terminates")
+}
+
 func verifIsValueOrError(v Object, err error) bool {
 	return (err == nil) != (v == nil)
 }
@@ -180,13 +193,13 @@ func VerifC06Fail() {
 	verifrt.NoPanic("follow-up-no-panic", func() {
 		switch verifrt.Param("reuse") {
 		case 0:
-			v1, e1 = vm.SetBytecode(obs).Run(verifObsGlobals(), x)
+			verifC06FollowUp(vm, false, obs, x, &v1, &e1)
 		case 1:
-			v1, e1 = vm.Clear().SetBytecode(obs).Run(verifObsGlobals(), x)
+			verifC06FollowUp(vm, true, obs, x, &v1, &e1)
 		default:
 			// the failing script again, then the observation script
 			_, _ = vm.Run(g, Int(v))
-			v1, e1 = vm.Clear().SetBytecode(obs).Run(verifObsGlobals(), x)
+			verifC06FollowUp(vm, true, obs, x, &v1, &e1)
 		}
 	})
 	verifrt.Unfreeze()
@@ -255,7 +268,7 @@ func VerifC06Edge() {
 	var v1 Object
 	var e1 error
 	verifrt.NoPanic("follow-up-no-panic", func() {
-		v1, e1 = vm.Clear().SetBytecode(obs).Run(verifObsGlobals(), x)
+		verifC06FollowUp(vm, true, obs, x, &v1, &e1)
 	})
 	verifrt.Assert(verifSameError(e1, e2) && (e1 != nil || verifSameObject(v1, v2)), "history-independent")
 	verifrt.Reached("end")
@@ -417,5 +430,47 @@ func VerifC07History() {
 	var re3 error
 	verifrt.NoPanic("rerun-no-panic", func() { r3, re3 = vm2.Run(g2) })
 	verifrt.Assert(verifSameError(re1, re3) && (re1 != nil || verifSameObject(r1, r3)), "same-bytecode-same-outcome-on-new-vm")
+	verifrt.Reached("end")
+}
+
+// VerifC07Globals: what a run sees as globals is what it was given - a nil
+// globals argument means a fresh empty map, whatever earlier runs on the same
+// VM were given or stored. Three runs of `global x; x = (x || 0) + p; return x`
+// on one VM; per run the globals argument (nil, a new map, one shared map)
+// and what happens before it (nothing, Clear, SetBytecode) are choices.
+func VerifC07Globals() {
+	bc, err := Compile([]byte("global x\nparam p\nx = (x || 0) + p\nreturn x"), CompilerOptions{NoOptimize: verifrt.Param("opt") == 0})
+	verifrt.Assert(err == nil, "compiles")
+	if err != nil {
+		return
+	}
+	p := verifrt.Int64("p")
+	verifrt.Assume(p > -1000 && p < 1000)
+	shared := Map{}
+	sharedUses := int64(0)
+	vm := NewVM(bc).SetRecover(true)
+	for i := 0; i < 3; i++ {
+		switch verifrt.Choice("before", 3) {
+		case 1:
+			vm.Clear()
+			vm.SetBytecode(bc)
+		case 2:
+			vm.SetBytecode(bc)
+		}
+		var g Object
+		want := p
+		switch verifrt.Choice("globals", 3) {
+		case 1:
+			g = Map{}
+		case 2:
+			g = shared
+			sharedUses++
+			want = p * sharedUses
+		}
+		var v Object
+		var rerr error
+		verifrt.NoPanic("run-no-panic", func() { v, rerr = vm.Run(g, Int(p)) })
+		verifrt.Assert(rerr == nil && v != nil && v.Equal(Int(want)), "globals-are-what-the-run-was-given")
+	}
 	verifrt.Reached("end")
 }
